@@ -212,6 +212,46 @@ func (e *Exec) eval(env *Env, ex ast.Expr) (Val, error) {
 		return Val{}, fmt.Errorf("cannot index %s", b.T)
 	case *ast.CallExpr:
 		return e.evalCall(env, x)
+	case *ast.CompositeLit:
+		// struct literal with named fields: T{F: v, ...} (unnamed fields are zero)
+		t, err := e.resolveType(env, x.Type)
+		if err != nil {
+			return Val{}, err
+		}
+		st, ok := unalias(t).Underlying().(*types.Struct)
+		if !ok {
+			return Val{}, fmt.Errorf("composite literal of non-struct type %s", t)
+		}
+		si := e.reg.structOf(t)
+		args := make([]Term, st.NumFields())
+		for i := 0; i < st.NumFields(); i++ {
+			args[i] = e.reg.zero(st.Field(i).Type())
+		}
+		for _, el := range x.Elts {
+			kv, ok := el.(*ast.KeyValueExpr)
+			if !ok {
+				return Val{}, fmt.Errorf("composite literal: only named fields are supported")
+			}
+			id, ok := kv.Key.(*ast.Ident)
+			if !ok {
+				return Val{}, fmt.Errorf("composite literal: bad field name")
+			}
+			found := false
+			for i := 0; i < st.NumFields(); i++ {
+				if st.Field(i).Name() == id.Name {
+					v, err := e.evalAs(env, kv.Value, st.Field(i).Type())
+					if err != nil {
+						return Val{}, err
+					}
+					args[i] = e.asTerm(v)
+					found = true
+				}
+			}
+			if !found {
+				return Val{}, fmt.Errorf("composite literal: no field %s in %s", id.Name, t)
+			}
+		}
+		return Val{T: t, Term: app(si.ctor, args...)}, nil
 	}
 	return Val{}, fmt.Errorf("unsupported expression %T", ex)
 }
